@@ -11,7 +11,7 @@ Proof. exact ConnProofs.c01_routed_by_id. Qed.
 Theorem c01_in_order : forall (f : fixes) (evs : list ev) (o : nat) (c : cop), getop (run f evs) o = Some c -> Subseq (o_items c) (sent (run f evs)) /\ Subseq (o_got c) (o_items c) /\ Subseq (o_got c) (sent (run f evs)).
 Proof. exact ConnOrder.c01_in_order. Qed.
 
-Theorem c01_no_gaps : forall (f : fixes) (evs : list ev) (o : nat) (c : cop), getop (run f evs) o = Some c -> o_got c = filter notdone (firstn (o_taken c) (o_items c)).
+Theorem c01_no_gaps : forall (f : fixes) (evs : list ev) (o : nat) (c : cop), getop (run f evs) o = Some c -> o_got c = filter (shown (o_kind c)) (firstn (o_taken c) (o_items c)).
 Proof. exact ConnOrder.c01_no_gaps. Qed.
 
 Theorem c01_unmatched_noop : forall (s : st) (r : resp) (w : list resp), is_running s = true -> win s = r :: w -> alookup (r_mid r) (smap s) = None -> alookup (r_mid r) (rmap s) = None -> step s DrvResp = s <| win := w |> <| processed ::= (fun l : list (resp * option nat) => l ++ [(r, None)]) |>.
